@@ -6,6 +6,7 @@ import Grevm.Driver.Kernel
 import Grevm.Driver.Components
 import Grevm.Driver.Sched
 import Grevm.Driver.Repr
+import Grevm.Driver.Small
 
 open Grevm Grevm.Driver
 
@@ -99,6 +100,8 @@ def runSession (lines : List String) : String :=
       | "history" :: hd => replayHistory hd rest
       | ["reward"] => replayReward rest
       | ["repr"] => ReprConf.replayRepr rest
+      | ["kernel", "wait"] => Small.replayWait rest
+      | ["once", k] => Small.replayOnce (k.toNat?.getD 0) rest
       | ["sched", n] => SchedConf.replaySched (n.toNat?.getD 0) rest
       | _ => s!"error unknown session header: {hd}"
 
